@@ -28,6 +28,16 @@ CHECKS = {
         text="Same exploration as C03 with rename / new_id / constructor-with-id operations over 10 id atoms; "
              "sibling-name uniqueness, non-empty names and canonical ids are checked in every reached state.",
         design="DESIGN.md 2.4, C04"),
+    "C05": dict(
+        engine="history",
+        category="model_checking",
+        technique="explicit-state BFS over value/dtype operations on one real Property (invariant, atomicity, normal-form laws)",
+        text="From every Property(values=atom, dtype=spelling) the constructor accepts (58 value atoms x 31 dtype "
+             "spellings) every sequence of <=2 further value-editing operations (values=, dtype=, append/extend/insert "
+             "strict and lenient, item assignment, remove, merge, clone, re-assignment) is executed; after each step: "
+             "exact Python type of every stored value, refused operations change nothing and raise ValueError, "
+             "text round trip and self-assignment are the identity.",
+        design="DESIGN.md 2.4, C05"),
     "C06": dict(
         engine="history",
         category="model_checking",
